@@ -1221,3 +1221,24 @@ Example code_concatToolCalls_nonvacuous :
 Proof.
   split; [intros m; apply Permutation_sym, Permutation_rev|]. repeat split; vm_compute; reflexivity.
 Qed.
+
+(* schema.concatMessageArray (the concat function registered for []*Message), statement by statement: for
+   every chunk type with a nil test it is the position-wise concatenation (every list as long as the first,
+   else the error; position i = the non-nil entries at i in arrival order: none = nil, one = itself, several =
+   the concatenation function); it panics exactly on an empty list of lists (the registry never calls it so);
+   for messages it is [concat_msg_arrays], the function of msg_arrays_rechunk / msglist_rechunk *)
+From Eino Require Import Proofs.ConcatCodeArr.
+
+Theorem code_concatMessageArray :
+  (forall (X : Type) (zero : X) (ci : list X -> res X) (is_nil_x : X -> bool) (mas : list (list X)),
+     gen_concatMessageArray X zero ci is_nil_x mas = spec_array X zero ci is_nil_x mas) /\
+  (forall (U : UserFn) (mas : list (list (option msg))),
+     gen_concatMessageArray (option msg) None omsg_concat omsg_is_nil mas = concat_msg_arrays mas).
+Proof. split; [exact ref_concatMessageArray|exact @ref_concatMessageArray_msgs]. Qed.
+Print Assumptions code_concatMessageArray.
+
+Example code_concatMessageArray_nonvacuous :
+  gen_concatMessageArray (option msg) None omsg_concat omsg_is_nil [[Some ex_m1; None]; [None; None]] = Ok [Some ex_m1; None] /\
+  gen_concatMessageArray (option msg) None omsg_concat omsg_is_nil [[Some ex_m1]; [None; None]] = Err E_LEN /\
+  gen_concatMessageArray (option msg) None omsg_concat omsg_is_nil [] = Panic.
+Proof. repeat split; vm_compute; reflexivity. Qed.
